@@ -223,6 +223,8 @@ pub fn run_pipeline(
     }
 
     let mut cmd_result = CommandResult::new();
+    // the last stage could not be started (run_single_program returned 0)
+    let mut last_stage_failed = false;
     for i in 0..length {
         let child_id: i32 = run_single_program(
             sh,
@@ -239,6 +241,9 @@ pub fn run_pipeline(
 
         if child_id > 0 && !cl.background {
             fg_pids.push(child_id);
+        }
+        if child_id == 0 && i + 1 == length {
+            last_stage_failed = true;
         }
     }
 
@@ -260,6 +265,9 @@ pub fn run_pipeline(
         if !capture {
             cmd_result = _cr;
         }
+    }
+    if last_stage_failed {
+        cmd_result.status = 1;
     }
     (term_given, cmd_result)
 }
@@ -301,7 +309,23 @@ fn run_single_program(
             Ok(fds) => fds_stdin = Some(fds),
             Err(e) => {
                 println_stderr!("cicada: pipeline4: {}", e);
-                return 1;
+                // this stage cannot be started: release what the parent
+                // holds for it, so that its neighbours see EOF / EPIPE
+                // instead of waiting for ever.
+                if idx_cmd < pipes_count {
+                    libs::close(pipes[idx_cmd].1);
+                }
+                if idx_cmd > 0 {
+                    libs::close(pipes[idx_cmd - 1].0);
+                }
+                if idx_cmd == pipes_count {
+                    for fds in [fds_capture_stdout, fds_capture_stderr].iter().copied().flatten() {
+                        libs::close(fds.0);
+                        libs::close(fds.1);
+                    }
+                }
+                *cmd_result = CommandResult::error();
+                return 0;
             }
         }
     }
